@@ -4,7 +4,7 @@
    and exports each complete behaviour; each is replayed against the real signing calls over the real blocking TCP client and the real
    asynchronous service on scripted sockets, with replies built by the independent reference aggregator (tools/wire.py).  The request on
    the wire must carry hash, level and login id unchanged with a correct HMAC; success/failure must equal the spec's result."""
-import json, os, random
+import re, json, os, random
 import vlib, ksi, netsim, wire
 
 LEVEL = "model_checking"
@@ -156,7 +156,8 @@ def wire_good(kind):
 def async_case(chk, s, rng, c, n):
     req, a = c["req"], c["reply"]
     doc = ksi.imprint(ALG[req["alg"]], b"c07a-%d" % rng.randrange(1 << 30)); level = req["level"]
-    s.cmd("NEW 2 10 10 10 10")
+    ha = req["api"] == "ha"
+    s.cmd("HANEW 2 4 10 10 10 10" if ha else "NEW 2 10 10 10 10")
     out = s.cmd("ADD 1 %s %d" % (doc.hex(), level))
     if req["api"] == "asyncReuse" and int(netsim.kv(out[-1])["rc"], 16) == 0:
         if rng.random() < 0.4:
@@ -186,26 +187,49 @@ def async_case(chk, s, rng, c, n):
         return
     out = s.cmd("RUN")
     sent = [l for l in out if l.startswith("E send")]
-    raw = b"".join(bytes.fromhex(l.split("data=")[1]) for l in sent)
-    if not raw:
-        chk.violation("no-request:async", "the async service did not send the request", dict(log=s.log[-10:])); return
-    try:
-        fl = wire.request_fields(raw)
-    except Exception as ex:
-        chk.violation("request:not-a-pdu:async:%s" % req["api"], "the bytes the async service wrote are not an aggregation request PDU (%s): %s" % (ex, raw.hex()[:200]), dict(log=s.log[-25:])); return
-    check_request(chk, fl, doc, level, "async")
-    rid = int.from_bytes(fl["payload"].get(1, b""), "big")
-    reply = wire.sign_reply(a, rng, rid, doc, level, None)
-    if reply is None:
-        s.cmd("PEERCLOSE")
+    if ha:
+        # every endpoint must have been sent the caller's hash and level; every endpoint answers with the reply at hand (built for ITS request id)
+        per = {}
+        for l in sent:
+            m = re.search(r"ep=(\d+)", l); ep = int(m.group(1)) if m else 0
+            per[ep] = per.get(ep, b"") + bytes.fromhex(l.split("data=")[1].split()[0])
+        if sorted(per) != [0, 1]:
+            chk.violation("no-request:ha", "the HA service wrote requests to endpoints %s, not to both" % sorted(per), dict(log=s.log[-10:])); return
+        for ep, rawe in sorted(per.items()):
+            try:
+                fle = wire.request_fields(rawe)
+            except Exception as ex:
+                chk.violation("request:not-a-pdu:ha", "endpoint %d was not sent an aggregation request PDU (%s)" % (ep, ex), dict(log=s.log[-25:])); return
+            check_request(chk, fle, doc, level, "ha endpoint %d" % ep)
+            ride = int.from_bytes(fle["payload"].get(1, b""), "big")
+            rp = wire.sign_reply(a, rng, ride, doc, level, None)
+            s.cmd("EP %d" % ep); s.cmd("PEERCLOSE" if rp is None else "S2C " + rp.hex())
+        s.cmd("EP 0")
+        raw = None
     else:
-        s.cmd("S2C " + reply.hex())
+        raw = b"".join(bytes.fromhex(l.split("data=")[1]) for l in sent)
+    if raw is not None and not raw:
+        chk.violation("no-request:async", "the async service did not send the request", dict(log=s.log[-10:])); return
+    if raw is not None:
+        try:
+            fl = wire.request_fields(raw)
+        except Exception as ex:
+            chk.violation("request:not-a-pdu:async:%s" % req["api"], "the bytes the async service wrote are not an aggregation request PDU (%s): %s" % (ex, raw.hex()[:200]), dict(log=s.log[-25:])); return
+        check_request(chk, fl, doc, level, "async")
+        rid = int.from_bytes(fl["payload"].get(1, b""), "big")
+        reply = wire.sign_reply(a, rng, rid, doc, level, None)
+        if reply is None:
+            s.cmd("PEERCLOSE")
+        else:
+            s.cmd("S2C " + reply.hex())
     line = ""
-    for _ in range(4):
+    for _ in range(6 if ha else 4):
         out = s.cmd("RUN")
         line = [l for l in out if l.startswith("R run")][-1]
-        if " h=1 " in line + " ":
+        if " h=1 " in line + " " and " state=6 " not in line + " ":         # (an HA error notice is not the request)
             break
+        if " h=" in line and " h=- " not in line + " ":
+            continue
         s.cmd("TICK 11")
     f2 = dict(x.split("=", 1) for x in line.split()[2:] if "=" in x)
     ok = f2.get("state") == "3" and f2.get("sig") == "0"
@@ -234,14 +258,14 @@ def run(chk, tier, seed):
         s.cmd("BNEW")
         prev = None
         for c in cases_run:
-            if c["req"]["api"] not in ("async", "asyncReuse", "http"):
+            if c["req"]["api"] not in ("async", "asyncReuse", "http", "ha"):
                 prev = blocking_case(chk, s, rng, c, prev); n += 1
         s.cmd("HNEW"); prev = None
         for c in cases_run:
             if c["req"]["api"] == "http":
                 prev = http_case(chk, s, rng, c, prev); n += 1
         for c in cases_run:
-            if c["req"]["api"] in ("async", "asyncReuse"):
+            if c["req"]["api"] in ("async", "asyncReuse", "ha"):
                 async_case(chk, s, rng, c, n); n += 1
     except netsim.Died as e:
         chk.violation("crash:sign", "libksi crashed/aborted during a signing call\n%s" % str(e)[-2500:], dict(log=s.log[-40:]))
